@@ -13,6 +13,10 @@ VERIF = os.path.dirname(os.path.dirname(os.path.abspath(__file__)))
 REPO = os.environ.get("VERIF_REPO", "/repo")
 COQ = os.path.join(VERIF, "coq")
 WORK = os.path.join(VERIF, "_work")
+if REPO != "/repo":
+    # checks run against a scratch copy of the repository (mutation experiments) get their own build area, so that
+    # they never disturb a run against /repo itself
+    WORK = os.path.join(VERIF, "_work", "alt-" + hashlib.sha256(REPO.encode()).hexdigest()[:8])
 GUARD = "KHIZMAX_LIBCDS_VERIF"
 NCPU = os.cpu_count() or 4
 
